@@ -34,6 +34,7 @@ DEFAULT_PROFILE = {
     "p_named_delay": 0.2,
     "p_invoke": 0.0,
     "p_hostile_names": 0.08,
+    "p_wildcard": 0.0,
     "p_shared_invoke_id": 0.0,
     "p_multi_invoke": 0.0,
     "svc_kinds": ("sync",),
@@ -319,6 +320,9 @@ class MachineGen:
         if p.get("p_list_ctx") and rng.random() < p["p_list_ctx"]:
             # a user action that mutates a nested value of the context IN PLACE (context["l"].append(...))
             out.append(self.act("app_l", [["app", "l", 1]]))
+        if p.get("p_pop_ctx") and rng.random() < p["p_pop_ctx"]:
+            # a user action that REMOVES a top-level key the initial context declares (and one that puts it back)
+            out.append(self.act("pop_d", [["pop", "d"]]) if rng.random() < 0.65 else self.act("set_d", [["set", "d", "again"]]))
         if p.get("p_stop_act") and rng.random() < p["p_stop_act"] and where == "trans":
             out.append(self.act("stop_inside", [["stop"]]))
         if rng.random() < p["p_slow_act"]:
@@ -389,6 +393,11 @@ class MachineGen:
                 d = [x for x in src.walk() if x is not src and x.kind != "history"]
                 if d:
                     return rng.choice(d), False
+            if k == "own_history":
+                # the history child of the source itself or of one of its ancestors (a state restoring its own subtree)
+                h = [c for a in [src] + list(src.ancestors()) for c in a.children if c.kind == "history"]
+                if h:
+                    return rng.choice(h), False
             if k == "history":
                 h = [n for n in nodes if n.kind == "history"]
                 if h:
@@ -473,6 +482,22 @@ class MachineGen:
                     g = self.any_guard(nodes) if (rng.random() < p["p_guard"] or (k == 2 and j == 0)) else None
                     lst.append(self.tcfg(n, tgt, re, g, extra=not ev.startswith("R")))
                 on[ev] = lst if (k > 1 or rng.random() < 0.5) else lst[0]
+            pw = p.get("p_wildcard") or 0.0
+            if pw:
+                # wildcard and partial descriptors next to (or instead of) exact keys: "E1.*" also matches E1 itself
+                for wk in ("*", rng.choice(self.events) + ".*"):
+                    if rng.random() >= pw:
+                        continue
+                    if rng.random() < max(p["p_forbid"], 0.12):
+                        on[wk] = None
+                        continue
+                    k = 2 if rng.random() < p["p_two"] else 1
+                    lst = []
+                    for j in range(k):
+                        tgt, re = self.pick_target(n, nodes, root)
+                        g = self.any_guard(nodes) if (rng.random() < p["p_guard"] or (k == 2 and j == 0)) else None
+                        lst.append(self.tcfg(n, tgt, re, g, extra=True))
+                    on[wk] = lst if (k > 1 or rng.random() < 0.5) else lst[0]
             if on:
                 c["on"] = on
             if n is not root and rng.random() < p["p_always"]:
@@ -504,6 +529,8 @@ class MachineGen:
         cfg["context"] = {"n": 0, "a": 0}
         if p.get("p_list_ctx"):
             cfg["context"]["l"] = []
+        if p.get("p_pop_ctx"):
+            cfg["context"]["d"] = "declared"
         lo, hi = p["max_iterations"]
         cfg["maxIterations"] = rng.randint(lo, hi)
         if rng.random() < p["p_machine_output"]:
